@@ -23,6 +23,7 @@ import (
 	"sort"
 	"strings"
 	"sync"
+	"sync/atomic"
 	"time"
 
 	"github.com/cenkalti/rain/v2/internal/verif/vh"
@@ -128,7 +129,7 @@ func (p *speer) serve(meta []byte) {
 	}
 	if p.rh.Reserved[5]&0x10 != 0 {
 		p.send(vh.Msg{ID: vh.MsgExtended, ExtID: 0, Data: vh.Enc(d)})
-		T.Emit(vh.Ev{"ev": "exths_tx", "peer": p.name})
+		p.r.emit(vh.Ev{"ev": "exths_tx", "peer": p.name})
 	}
 	if p.rh.Reserved[7]&0x04 != 0 {
 		p.send(vh.Msg{ID: vh.MsgHaveNone})
@@ -140,18 +141,18 @@ func (p *speer) serve(meta []byte) {
 			p.mu.Lock()
 			p.closed = true
 			p.mu.Unlock()
-			T.Emit(vh.Ev{"ev": "closed", "peer": p.name})
+			p.r.emit(vh.Ev{"ev": "closed", "peer": p.name})
 			return
 		}
 		switch msg.ID {
 		case vh.MsgPort:
-			T.Emit(vh.Ev{"ev": "portrx", "peer": p.name, "port": int(msg.Port)})
+			p.r.emit(vh.Ev{"ev": "portrx", "peer": p.name, "port": int(msg.Port)})
 		case vh.MsgExtended:
 			if msg.ExtID == 0 {
 				v, _, err := vh.Dec(msg.Data)
 				dd, _ := v.(map[string]any)
 				if err != nil || dd == nil {
-					T.Emit(vh.Ev{"ev": "exths_rx", "peer": p.name, "bad": 1})
+					p.r.emit(vh.Ev{"ev": "exths_rx", "peer": p.name, "bad": 1})
 					continue
 				}
 				ver, _ := dd["v"].(string)
@@ -165,8 +166,8 @@ func (p *speer) serve(meta []byte) {
 				if id, ok := mm["ut_metadata"].(int64); ok {
 					utMeta = int(id)
 				}
-				T.Emit(vh.Ev{"ev": "exths_rx", "peer": p.name, "v": string(ver), "advpex": b2i(advPex)})
-				T.Emit(vh.Ev{"ev": "ident", "what": "extv", "where": "exths:" + p.name, "val": string(ver),
+				p.r.emit(vh.Ev{"ev": "exths_rx", "peer": p.name, "v": string(ver), "advpex": b2i(advPex)})
+				p.r.emit(vh.Ev{"ev": "ident", "what": "extv", "where": "exths:" + p.name, "val": string(ver),
 					"cls": identClass(string(ver), privVer, torrent.DefaultConfig.PrivateExtensionHandshakeClientVersion)})
 				continue
 			}
@@ -175,7 +176,7 @@ func (p *speer) serve(meta []byte) {
 				dd, _ := v.(map[string]any)
 				a, _ := dd["added"].(string)
 				dr, _ := dd["dropped"].(string)
-				T.Emit(vh.Ev{"ev": "pexrx", "peer": p.name, "added": len(a) / 6, "dropped": len(dr) / 6})
+				p.r.emit(vh.Ev{"ev": "pexrx", "peer": p.name, "added": len(a) / 6, "dropped": len(dr) / 6})
 				continue
 			}
 			if msg.ExtID == ourMetaID && meta != nil {
@@ -189,7 +190,7 @@ func (p *speer) serve(meta []byte) {
 				if typ != 0 {
 					continue
 				}
-				T.Emit(vh.Ev{"ev": "metareq", "peer": p.name, "piece": int(pc)})
+				p.r.emit(vh.Ev{"ev": "metareq", "peer": p.name, "piece": int(pc)})
 				go func() {
 					select {
 					case <-r.metaGate:
@@ -249,7 +250,7 @@ func (s *dhtStub) run() {
 		v, _, err := vh.Dec(append([]byte(nil), buf[:n]...))
 		d, _ := v.(map[string]any)
 		if err != nil || d == nil {
-			T.Emit(vh.Ev{"ev": "dht", "stub": s.name, "q": "undecodable"})
+			s.r.emit(vh.Ev{"ev": "dht", "stub": s.name, "q": "undecodable"})
 			continue
 		}
 		y, _ := d["y"].(string)
@@ -270,7 +271,7 @@ func (s *dhtStub) run() {
 			who = s.r.whoByPort(int(port))
 		}
 		if string(q) == "get_peers" || string(q) == "announce_peer" || s.nfn == 0 {
-			T.Emit(vh.Ev{"ev": "dht", "stub": s.name, "q": string(q), "ih": hex.EncodeToString([]byte(ih)), "match": match, "port": int(port), "who": who})
+			s.r.emit(vh.Ev{"ev": "dht", "stub": s.name, "q": string(q), "ih": hex.EncodeToString([]byte(ih)), "match": match, "port": int(port), "who": who})
 		}
 		if match == 1 {
 			select {
@@ -292,7 +293,7 @@ func (s *dhtStub) run() {
 				cp := append([]byte(nil), s.r.dhtPeer.IP.To4()...)
 				cp = binary.BigEndian.AppendUint16(cp, uint16(s.r.dhtPeer.Port))
 				rep["values"] = []any{cp}
-				T.Emit(vh.Ev{"ev": "dhtvalues", "stub": s.name})
+				s.r.emit(vh.Ev{"ev": "dhtvalues", "stub": s.name})
 			} else {
 				rep["nodes"] = ""
 			}
@@ -319,6 +320,17 @@ type runner struct {
 	t1ID     string // hex peer id of T1 as seen by the tracker
 	stubs    []*dhtStub
 	dhtSeen  chan struct{} // a KRPC query with the info-hash reached a stub
+	finished atomic.Bool
+}
+
+// emit logs an event of THIS scenario; goroutines of a scenario that has ended (a tracker handler or a peer reader that is
+// still running while the next scenario has begun) log nothing.
+func (r *runner) emit(e vh.Ev) {
+	if r.finished.Load() {
+		return
+	}
+	e["sid"] = r.sc.ID
+	T.Emit(e)
 }
 
 func (r *runner) whoByPort(port int) string {
@@ -388,7 +400,7 @@ func (r *runner) identPeerID(where string, id []byte) {
 	} else if strings.HasPrefix(string(id), pub) {
 		cls = "public"
 	}
-	T.Emit(vh.Ev{"ev": "ident", "what": "peerid", "where": where, "cls": cls, "val": hex.EncodeToString(id)})
+	r.emit(vh.Ev{"ev": "ident", "what": "peerid", "where": where, "cls": cls, "val": hex.EncodeToString(id)})
 }
 
 func (r *runner) listen(name string) {
@@ -396,17 +408,17 @@ func (r *runner) listen(name string) {
 	l, err := vh.ListenPeer(ipOf[name], 0, func(nc net.Conn) {
 		rh, err := vh.PlainHandshakeAccept(nc, vh.PeerID("c19-"+name), r.reserved(), 3*time.Second)
 		if err != nil {
-			T.Emit(vh.Ev{"ev": "dial", "src": src, "lst": name, "who": "?", "hs": 0})
+			r.emit(vh.Ev{"ev": "dial", "src": src, "lst": name, "who": "?", "hs": 0})
 			nc.Close()
 			return
 		}
 		if rh.InfoHash != r.tor.InfoHash {
-			T.Emit(vh.Ev{"ev": "stray", "what": "peer-connection"})
+			r.emit(vh.Ev{"ev": "stray", "what": "peer-connection"})
 			nc.Close()
 			return
 		}
 		who := r.who(rh.PeerID)
-		T.Emit(vh.Ev{"ev": "dial", "src": src, "lst": name, "who": who, "hs": 1})
+		r.emit(vh.Ev{"ev": "dial", "src": src, "lst": name, "who": who, "hs": 1})
 		if who != "t1" {
 			// a connection of the sibling torrent: keep it open, silent
 			go func() { buf := make([]byte, 4096); for { if _, err := nc.Read(buf); err != nil { return } } }()
@@ -417,7 +429,7 @@ func (r *runner) listen(name string) {
 		r.mu.Lock()
 		r.peers[name] = p
 		r.mu.Unlock()
-		T.Emit(vh.Ev{"ev": "conn", "peer": name, "dir": "out", "src": src})
+		r.emit(vh.Ev{"ev": "conn", "peer": name, "dir": "out", "src": src})
 		var meta []byte
 		if name == "out" && r.sc.Mode == "magnet" {
 			meta = r.meta
@@ -433,17 +445,17 @@ func (r *runner) listen(name string) {
 func (r *runner) connectIn(name string) {
 	nc, err := vh.DialFrom(ipOf[name], fmt.Sprintf("127.0.0.1:%d", r.tr.Port()), 2*time.Second)
 	if err != nil {
-		T.Emit(vh.Ev{"ev": "skip", "what": "in-dial-failed", "peer": name})
+		r.emit(vh.Ev{"ev": "skip", "what": "in-dial-failed", "peer": name})
 		return
 	}
 	rh, err := vh.PlainHandshake(nc, r.tor.InfoHash, vh.PeerID("c19-"+name), r.reserved(), 3*time.Second)
 	if err != nil {
-		T.Emit(vh.Ev{"ev": "skip", "what": "in-hs-failed", "peer": name, "err": err.Error()})
+		r.emit(vh.Ev{"ev": "skip", "what": "in-hs-failed", "peer": name, "err": err.Error()})
 		nc.Close()
 		return
 	}
 	if r.who(rh.PeerID) != "t1" {
-		T.Emit(vh.Ev{"ev": "skip", "what": "in-reached-sibling", "peer": name})
+		r.emit(vh.Ev{"ev": "skip", "what": "in-reached-sibling", "peer": name})
 		nc.Close()
 		return
 	}
@@ -452,7 +464,7 @@ func (r *runner) connectIn(name string) {
 	r.mu.Lock()
 	r.peers[name] = p
 	r.mu.Unlock()
-	T.Emit(vh.Ev{"ev": "conn", "peer": name, "dir": "in", "src": "incoming"})
+	r.emit(vh.Ev{"ev": "conn", "peer": name, "dir": "in", "src": "incoming"})
 	go p.serve(nil)
 }
 
@@ -464,9 +476,9 @@ func compact(a *net.TCPAddr) []byte {
 func (r *runner) step(st Step) {
 	switch st.Do {
 	case "manual":
-		T.Emit(vh.Ev{"ev": "addpeer"})
+		r.emit(vh.Ev{"ev": "addpeer"})
 		if err := r.tr.AddPeer(r.lst["man"].Addr.String()); err != nil {
-			T.Emit(vh.Ev{"ev": "skip", "what": "addpeer-error", "err": err.Error()})
+			r.emit(vh.Ev{"ev": "skip", "what": "addpeer-error", "err": err.Error()})
 		}
 		r.waitPeer("man", 700*time.Millisecond)
 	case "in":
@@ -475,7 +487,7 @@ func (r *runner) step(st Step) {
 	case "pex":
 		p := r.waitPeer(st.Peer, 300*time.Millisecond)
 		if p == nil {
-			T.Emit(vh.Ev{"ev": "skip", "what": "pex-peer-not-connected", "peer": st.Peer})
+			r.emit(vh.Ev{"ev": "skip", "what": "pex-peer-not-connected", "peer": st.Peer})
 			return
 		}
 		d := vh.Dict{"added": []byte{}, "added.f": []byte{}, "dropped": []byte{}}
@@ -486,28 +498,28 @@ func (r *runner) step(st Step) {
 		if strings.Contains(st.K, "d") {
 			d["dropped"] = compact(r.lst["pexd"].Addr)
 		}
-		T.Emit(vh.Ev{"ev": "pexmsg", "peer": st.Peer, "k": st.K})
+		r.emit(vh.Ev{"ev": "pexmsg", "peer": st.Peer, "k": st.K})
 		p.send(vh.Msg{ID: vh.MsgExtended, ExtID: clientPexID(p), Data: vh.Enc(d)})
 		time.Sleep(40 * time.Millisecond)
 	case "port":
 		p := r.waitPeer(st.Peer, 300*time.Millisecond)
 		if p == nil {
-			T.Emit(vh.Ev{"ev": "skip", "what": "port-peer-not-connected", "peer": st.Peer})
+			r.emit(vh.Ev{"ev": "skip", "what": "port-peer-not-connected", "peer": st.Peer})
 			return
 		}
 		s, err := startStub(ipOf[st.Peer], "n"+st.Peer, r)
 		if err != nil {
-			T.Emit(vh.Ev{"ev": "skip", "what": "node-stub", "err": err.Error()})
+			r.emit(vh.Ev{"ev": "skip", "what": "node-stub", "err": err.Error()})
 			return
 		}
 		r.stubs = append(r.stubs, s)
-		T.Emit(vh.Ev{"ev": "port", "peer": st.Peer})
+		r.emit(vh.Ev{"ev": "port", "peer": st.Peer})
 		p.send(vh.Msg{ID: vh.MsgPort, Port: uint16(s.c.LocalAddr().(*net.UDPAddr).Port)})
 		time.Sleep(40 * time.Millisecond)
 	case "magnet":
 		r.magnet()
 	case "announce":
-		T.Emit(vh.Ev{"ev": "announce"})
+		r.emit(vh.Ev{"ev": "announce"})
 		r.tr.Announce()
 		time.Sleep(60 * time.Millisecond)
 	case "addtracker":
@@ -515,33 +527,33 @@ func (r *runner) step(st Step) {
 			if q.InfoHash != hex.EncodeToString(r.tor.InfoHash[:]) {
 				return vh.AnnReply{Failure: "unknown torrent"}
 			}
-			T.Emit(vh.Ev{"ev": "ident", "what": "ua", "where": "trk2", "cls": identClass(q.UA, privUA, torrent.DefaultConfig.TrackerHTTPPrivateUserAgent), "val": q.UA})
+			r.emit(vh.Ev{"ev": "ident", "what": "ua", "where": "trk2", "cls": identClass(q.UA, privUA, torrent.DefaultConfig.TrackerHTTPPrivateUserAgent), "val": q.UA})
 			return vh.AnnReply{Interval: vh.I64(1800)}
 		})
 		if err != nil {
 			return
 		}
-		T.Emit(vh.Ev{"ev": "addtracker"})
+		r.emit(vh.Ev{"ev": "addtracker"})
 		if err := r.tr.AddTracker(trk2.URL()); err != nil {
-			T.Emit(vh.Ev{"ev": "skip", "what": "addtracker-error", "err": err.Error()})
+			r.emit(vh.Ev{"ev": "skip", "what": "addtracker-error", "err": err.Error()})
 		}
 		time.Sleep(150 * time.Millisecond)
 		defer trk2.Close()
 	case "stopstart":
 		r.tr.Stop()
 		hub.Wait(r.tr.ID(), 3*time.Second, func(s *torrent.VerifSnap) bool { return s.Status == "Stopped" })
-		T.Emit(vh.Ev{"ev": "stop"}) // the stop has taken effect (messages in flight before this point belong to the running torrent)
+		r.emit(vh.Ev{"ev": "stop"}) // the stop has taken effect (messages in flight before this point belong to the running torrent)
 		r.mu.Lock()
 		r.peers = map[string]*speer{}
 		r.mu.Unlock()
-		T.Emit(vh.Ev{"ev": "start"})
+		r.emit(vh.Ev{"ev": "start"})
 		r.tr.Start()
 		r.waitPeer("out", 4*time.Second)
 	case "restart":
 		// close the session and open it again on the same database: the torrent is loaded from its resume record
 		id := r.tr.ID()
 		r.sess.Close()
-		T.Emit(vh.Ev{"ev": "stop"})
+		r.emit(vh.Ev{"ev": "stop"})
 		r.mu.Lock()
 		r.peers = map[string]*speer{}
 		r.t1ID = ""
@@ -553,10 +565,10 @@ func (r *runner) step(st Step) {
 		r.sess = sess
 		r.tr = sess.GetTorrent(id)
 		if r.tr == nil {
-			T.Emit(vh.Ev{"ev": "skip", "what": "torrent-not-loaded"})
+			r.emit(vh.Ev{"ev": "skip", "what": "torrent-not-loaded"})
 			panic("torrent not loaded after restart")
 		}
-		T.Emit(vh.Ev{"ev": "start"})
+		r.emit(vh.Ev{"ev": "start"})
 		r.waitPeer("out", 6*time.Second)
 	case "sleep":
 		time.Sleep(time.Duration(st.Ms) * time.Millisecond)
@@ -582,7 +594,7 @@ func (r *runner) magnet() {
 	} else {
 		e["link"] = s
 	}
-	T.Emit(e)
+	r.emit(e)
 }
 
 func (r *runner) observe(tag string) {
@@ -622,7 +634,7 @@ func (r *runner) observe(tag string) {
 		e["hasInfo"] = b2i(s.HasInfo)
 		e["addrListLen"] = s.AddrListLen
 	}
-	T.Emit(e)
+	r.emit(e)
 }
 
 func srcNamePub(s torrent.PeerSource) string {
@@ -669,6 +681,7 @@ func run(sc Scenario, dir string) {
 	for _, n := range []string{"out", "man", "pexa", "pexd", "dhtp"} {
 		r.listen(n)
 	}
+	defer r.finished.Store(true)
 	defer func() {
 		for _, l := range r.lst {
 			l.Close()
@@ -681,7 +694,7 @@ func run(sc Scenario, dir string) {
 	trk, err := vh.StartHTTPTracker(nil, "trk", func(q vh.AnnReq) vh.AnnReply {
 		if q.InfoHash != hex.EncodeToString(r.tor.InfoHash[:]) {
 			// not our torrent: a late announce of a session of another harness process whose tracker had this port
-			T.Emit(vh.Ev{"ev": "stray", "what": "tracker-request"})
+			r.emit(vh.Ev{"ev": "stray", "what": "tracker-request"})
 			return vh.AnnReply{Failure: "unknown torrent"}
 		}
 		r.mu.Lock()
@@ -690,13 +703,13 @@ func run(sc Scenario, dir string) {
 		}
 		r.mu.Unlock()
 		id, _ := hex.DecodeString(q.PeerID)
-		T.Emit(vh.Ev{"ev": "trkreq", "event": q.Event, "n": q.N})
+		r.emit(vh.Ev{"ev": "trkreq", "event": q.Event, "n": q.N})
 		r.identPeerID("trk", id)
-		T.Emit(vh.Ev{"ev": "ident", "what": "ua", "where": "trk", "cls": identClass(q.UA, privUA, torrent.DefaultConfig.TrackerHTTPPrivateUserAgent), "val": q.UA})
+		r.emit(vh.Ev{"ev": "ident", "what": "ua", "where": "trk", "cls": identClass(q.UA, privUA, torrent.DefaultConfig.TrackerHTTPPrivateUserAgent), "val": q.UA})
 		if q.Event == "stopped" {
 			return vh.AnnReply{Interval: vh.I64(1800)}
 		}
-		T.Emit(vh.Ev{"ev": "trkreply"})
+		r.emit(vh.Ev{"ev": "trkreply"})
 		return vh.AnnReply{Interval: vh.I64(1800), Peers: []*net.TCPAddr{r.lst["out"].Addr}}
 	})
 	if err != nil {
@@ -738,7 +751,7 @@ func run(sc Scenario, dir string) {
 		cfg.DHTHost = "127.0.0.1"
 		cfg.DHTBootstrapNodes = []string{stub.addr()}
 	}
-	T.Emit(vh.Ev{"ev": "init", "enc": sc.Enc, "pex": b2i(sc.PEX), "dht": b2i(sc.DHT), "mode": sc.Mode, "sibling": b2i(sc.Sibling), "dhtbit": b2i(sc.DHTBit),
+	r.emit(vh.Ev{"ev": "init", "enc": sc.Enc, "pex": b2i(sc.PEX), "dht": b2i(sc.DHT), "mode": sc.Mode, "sibling": b2i(sc.Sibling), "dhtbit": b2i(sc.DHTBit),
 		"ih": hex.EncodeToString(r.tor.InfoHash[:])})
 	sess, err := torrent.NewSession(cfg)
 	if err != nil {
@@ -749,29 +762,29 @@ func run(sc Scenario, dir string) {
 	defer func() { r.sess.Close() }()
 	tid := fmt.Sprintf("c19t%d", sc.ID)
 	magnetLink := "magnet:?xt=urn:btih:" + hex.EncodeToString(r.tor.InfoHash[:])
-	T.Emit(vh.Ev{"ev": "start"})
+	r.emit(vh.Ev{"ev": "start"})
 	if sc.Mode == "magnet" {
 		r.tr, err = sess.AddURI(magnetLink+"&tr="+trk.URL(), &torrent.AddTorrentOptions{ID: tid})
 	} else {
 		r.tr, err = sess.AddTorrent(bytes.NewReader(r.tor.Bytes), &torrent.AddTorrentOptions{ID: tid})
 	}
 	if err != nil {
-		T.Emit(vh.Ev{"ev": "adderr", "err": err.Error()})
-		T.Emit(vh.Ev{"ev": "end"})
+		r.emit(vh.Ev{"ev": "adderr", "err": err.Error()})
+		r.emit(vh.Ev{"ev": "end"})
 		return
 	}
 	if r.waitPeer("out", 6*time.Second) == nil {
 		// the scripted environment did not come up (loaded machine): the scenario is not judged (no "end" line)
-		T.Emit(vh.Ev{"ev": "skip", "what": "tracker-peer-not-dialled"})
+		r.emit(vh.Ev{"ev": "skip", "what": "tracker-peer-not-dialled"})
 		return
 	}
 	if sc.Sibling {
 		// the tracker has seen T1 by now (its peer id is known): add the magnet link of the same info-hash, DHT only
 		r.sib, err = sess.AddURI(magnetLink, &torrent.AddTorrentOptions{ID: tid + "sib"})
 		if err != nil {
-			T.Emit(vh.Ev{"ev": "skip", "what": "sibling-add-error", "err": err.Error()})
+			r.emit(vh.Ev{"ev": "skip", "what": "sibling-add-error", "err": err.Error()})
 		} else {
-			T.Emit(vh.Ev{"ev": "sibling"})
+			r.emit(vh.Ev{"ev": "sibling"})
 		}
 	}
 	if sc.Mode == "magnet" {
@@ -781,20 +794,20 @@ func run(sc Scenario, dir string) {
 		if len(sc.Pre) > 0 {
 			time.Sleep(150 * time.Millisecond)
 		}
-		T.Emit(vh.Ev{"ev": "metaserve", "private": -1})
+		r.emit(vh.Ev{"ev": "metaserve", "private": -1})
 		close(r.metaGate)
 		select {
 		case <-r.tr.NotifyMetadata():
-			T.Emit(vh.Ev{"ev": "meta", "outcome": "adopted"})
+			r.emit(vh.Ev{"ev": "meta", "outcome": "adopted"})
 		case err := <-r.tr.NotifyStop():
 			msg := ""
 			if err != nil {
 				msg = err.Error()
 			}
-			T.Emit(vh.Ev{"ev": "meta", "outcome": "refused", "msg": msg})
+			r.emit(vh.Ev{"ev": "meta", "outcome": "refused", "msg": msg})
 			hub.Wait(r.tr.ID(), 2*time.Second, func(s *torrent.VerifSnap) bool { return s.Status == "Stopped" })
 		case <-time.After(4 * time.Second):
-			T.Emit(vh.Ev{"ev": "meta", "outcome": "none"})
+			r.emit(vh.Ev{"ev": "meta", "outcome": "none"})
 		}
 		r.observe("aftermeta")
 	} else {
@@ -818,10 +831,11 @@ func run(sc Scenario, dir string) {
 	} else {
 		time.Sleep(time.Duration(settle) * time.Millisecond)
 	}
-	T.Emit(vh.Ev{"ev": "settled"})
+	r.emit(vh.Ev{"ev": "settled"})
 	r.observe("final")
 	r.magnet()
-	T.Emit(vh.Ev{"ev": "end"})
+	r.emit(vh.Ev{"ev": "end"})
+	r.finished.Store(true)
 }
 
 func main() {
